@@ -25,7 +25,7 @@ static std::string battery_traj(sb_trajectory_t* tr)
         return "playerinit";
     for (float tt : kTimes) {
         sb_vector3_with_yaw_t r;
-        memset(&r, 0, sizeof(r));
+        memset(&r, SBH_FILL, sizeof(r));
         sb_error_t rc = sb_trajectory_player_get_position_at(&pl, tt, &r);
         s += std::to_string((int)rc) + ":" + vec(r) + ";";
         rc = sb_trajectory_player_get_velocity_at(&pl, tt, &r);
@@ -37,7 +37,7 @@ static std::string battery_traj(sb_trajectory_t* tr)
     s += "D" + std::to_string(sb_trajectory_get_total_duration_msec(tr));
     s += "E" + std::to_string((int)sb_trajectory_is_empty(tr));
     sb_bounding_box_t box;
-    memset(&box, 0, sizeof(box));
+    memset(&box, SBH_FILL, sizeof(box));
     sb_error_t rc = sb_trajectory_get_axis_aligned_bounding_box(tr, &box);
     s += "B" + std::to_string((int)rc) + ":" + fbits(box.x.min) + "," + fbits(box.x.max) + "," + fbits(box.y.min) + "," + fbits(box.y.max) + "," + fbits(box.z.min) + "," + fbits(box.z.max);
     s += "T" + fbits(sb_trajectory_propose_takeoff_time_sec(tr, 2.5f, 1.0f, 4.0f));
@@ -101,7 +101,7 @@ static std::string battery_rth(sb_rth_plan_t* plan)
     }
     for (float tt : kTimes) {
         sb_rth_plan_entry_t e;
-        memset(&e, 0, sizeof(e));
+        memset(&e, SBH_FILL, sizeof(e));
         sb_error_t rc = sb_rth_plan_evaluate_at(plan, tt, &e);
         s += std::to_string((int)rc);
         if (rc == SB_SUCCESS) {
@@ -144,7 +144,7 @@ static void reload_fd(char kind, int fd, int* rc, std::string* bytes)
 {
     if (kind == 't') {
         sb_trajectory_t tr;
-        memset(&tr, 0, sizeof(tr));
+        memset(&tr, SBH_FILL, sizeof(tr));
         *rc = sb_trajectory_init_from_binary_file(&tr, fd);
         if (*rc == SB_SUCCESS) {
             *bytes = hex(SB_BUFFER(tr.buffer), sb_buffer_size(&tr.buffer));
@@ -152,7 +152,7 @@ static void reload_fd(char kind, int fd, int* rc, std::string* bytes)
         }
     } else if (kind == 'l') {
         sb_light_program_t prog;
-        memset(&prog, 0, sizeof(prog));
+        memset(&prog, SBH_FILL, sizeof(prog));
         *rc = sb_light_program_init_from_binary_file(&prog, fd);
         if (*rc == SB_SUCCESS) {
             *bytes = hex(SB_BUFFER(prog.buffer), sb_buffer_size(&prog.buffer));
@@ -160,7 +160,7 @@ static void reload_fd(char kind, int fd, int* rc, std::string* bytes)
         }
     } else if (kind == 'y') {
         sb_yaw_control_t ctrl;
-        memset(&ctrl, 0, sizeof(ctrl));
+        memset(&ctrl, SBH_FILL, sizeof(ctrl));
         *rc = sb_yaw_control_init_from_binary_file(&ctrl, fd);
         if (*rc == SB_SUCCESS) {
             *bytes = hex(SB_BUFFER(ctrl.buffer), sb_buffer_size(&ctrl.buffer));
@@ -168,7 +168,7 @@ static void reload_fd(char kind, int fd, int* rc, std::string* bytes)
         }
     } else {
         sb_rth_plan_t plan;
-        memset(&plan, 0, sizeof(plan));
+        memset(&plan, SBH_FILL, sizeof(plan));
         *rc = sb_rth_plan_init_from_binary_file(&plan, fd);
         if (*rc == SB_SUCCESS) {
             *bytes = hex(plan.buffer, plan.buffer_length);
@@ -188,7 +188,7 @@ static RouteResult run_route(char kind, bool mem, const std::vector<uint8_t>& fi
         fd = make_fd(file);
     if (kind == 't') {
         sb_trajectory_t tr;
-        memset(&tr, 0, sizeof(tr));
+        memset(&tr, SBH_FILL, sizeof(tr));
         r.rc = mem ? sb_trajectory_init_from_binary_file_in_memory(&tr, buf->p, buf->n) : sb_trajectory_init_from_binary_file(&tr, fd);
         if (r.rc == SB_SUCCESS) {
             r.bytes = hex(SB_BUFFER(tr.buffer), sb_buffer_size(&tr.buffer));
@@ -200,7 +200,7 @@ static RouteResult run_route(char kind, bool mem, const std::vector<uint8_t>& fi
         }
     } else if (kind == 'l') {
         sb_light_program_t prog;
-        memset(&prog, 0, sizeof(prog));
+        memset(&prog, SBH_FILL, sizeof(prog));
         r.rc = mem ? sb_light_program_init_from_binary_file_in_memory(&prog, buf->p, buf->n) : sb_light_program_init_from_binary_file(&prog, fd);
         if (r.rc == SB_SUCCESS) {
             r.bytes = hex(SB_BUFFER(prog.buffer), sb_buffer_size(&prog.buffer));
@@ -212,7 +212,7 @@ static RouteResult run_route(char kind, bool mem, const std::vector<uint8_t>& fi
         }
     } else if (kind == 'y') {
         sb_yaw_control_t ctrl;
-        memset(&ctrl, 0, sizeof(ctrl));
+        memset(&ctrl, SBH_FILL, sizeof(ctrl));
         r.rc = mem ? sb_yaw_control_init_from_binary_file_in_memory(&ctrl, buf->p, buf->n) : sb_yaw_control_init_from_binary_file(&ctrl, fd);
         if (r.rc == SB_SUCCESS) {
             r.bytes = hex(SB_BUFFER(ctrl.buffer), sb_buffer_size(&ctrl.buffer));
@@ -222,7 +222,7 @@ static RouteResult run_route(char kind, bool mem, const std::vector<uint8_t>& fi
         }
     } else {
         sb_rth_plan_t plan;
-        memset(&plan, 0, sizeof(plan));
+        memset(&plan, SBH_FILL, sizeof(plan));
         r.rc = mem ? sb_rth_plan_init_from_binary_file_in_memory(&plan, buf->p, buf->n) : sb_rth_plan_init_from_binary_file(&plan, fd);
         if (r.rc == SB_SUCCESS) {
             r.bytes = hex(plan.buffer, plan.buffer_length);
